@@ -399,3 +399,88 @@ func ruleMulValBlindSpot(c *Ctx) {
 	}
 	c.Check("C18.b2", "special case matches the divisor of the divide-back test", div, okNeg && okMin, "the wrap test divides by %s and compares with %s, but the special case does not test %s == -1 && %s == math.MinInt64: the blind spot of the division (MinInt64 / -1) is not the pair that is handled", p.Src(div.Y), other, p.Src(div.Y), other)
 }
+
+func init() { registerExtra("C08", ruleSnapshotFieldSources) }
+
+// sourceStem: the name of the field or getter an expression reads, stripped of Get/get and of
+// trailing Clone()/DAOMap() calls: sq.maxResource.Clone() -> "maxresource", q.GetMaxResource() -> "maxresource".
+func (p *Prog) sourceStem(e ast.Expr) string {
+	e = unparen(e)
+	for {
+		call, ok := e.(*ast.CallExpr)
+		if !ok {
+			break
+		}
+		sel, ok := unparen(call.Fun).(*ast.SelectorExpr)
+		if !ok {
+			return ""
+		}
+		switch sel.Sel.Name {
+		case "Clone", "DAOMap", "String":
+			e = unparen(sel.X)
+			continue
+		}
+		name := sel.Sel.Name
+		name = strings.TrimPrefix(strings.TrimPrefix(name, "Get"), "get")
+		return strings.ToLower(name)
+	}
+	if sel, ok := e.(*ast.SelectorExpr); ok {
+		return strings.ToLower(sel.Sel.Name)
+	}
+	return ""
+}
+
+// ruleSnapshotFieldSources: in struct literals of the preemption snapshots every field is filled
+// from the source of the same name; a value whose source carries the name of ANOTHER field of the
+// same literal is a swapped pair (guaranteed filled from max, allocated from preempting ...).
+func ruleSnapshotFieldSources(c *Ctx) {
+	p := c.p
+	c.Rule("C08.g", "in the struct literals that build preemption snapshots (and in every other keyed struct literal of the scheduler packages) a field is never filled from the source that carries the name of a different field of the same literal: guaranteed/max/allocated/preempting are not swapped")
+	n, nSnap := 0, 0
+	for _, fn := range p.funcs {
+		if fn.Decl.Body == nil || !(p.InPkg(fn, "objects") || p.InPkg(fn, "scheduler")) {
+			continue
+		}
+		ast.Inspect(fn.Decl.Body, func(nd ast.Node) bool {
+			cl, ok := nd.(*ast.CompositeLit)
+			if !ok {
+				return true
+			}
+			keys := map[string]bool{}
+			for _, el := range cl.Elts {
+				if kv, ok := el.(*ast.KeyValueExpr); ok {
+					if id, ok := kv.Key.(*ast.Ident); ok {
+						keys[strings.ToLower(id.Name)] = true
+					}
+				}
+			}
+			if len(keys) < 2 {
+				return true
+			}
+			if p.TypeName(p.TypeOf(cl)) == "objects.QueuePreemptionSnapshot" {
+				nSnap++
+			}
+			for _, el := range cl.Elts {
+				kv, ok := el.(*ast.KeyValueExpr)
+				if !ok {
+					continue
+				}
+				id, ok := kv.Key.(*ast.Ident)
+				if !ok {
+					continue
+				}
+				stem := p.sourceStem(kv.Value)
+				if stem == "" {
+					continue
+				}
+				n++
+				key := strings.ToLower(id.Name)
+				swapped := stem != key && keys[stem]
+				c.Check("C08.g", "field "+id.Name+" of "+p.TypeName(p.TypeOf(cl))+" in "+fn.Name, kv, !swapped, "field %s is filled from %s, the source named like the sibling field %q of the same literal: the two are swapped", id.Name, p.Src(kv.Value), stem)
+			}
+			return true
+		})
+	}
+	c.Floor("C08.g", "named-source struct fields checked", n, 40)
+	c.Floor("C08.g", "preemption snapshot literals", nSnap, 2)
+}
